@@ -48,6 +48,8 @@ pub enum COp {
     Leave { client: u8, stream: Ref, topic: Ref, group: Ref },
     Disconnect { client: u8 },
     Send { stream: Ref, topic: Ref, n: u8 },
+    /// store the offset of the newest message of partition 1 for consumer `who` (1..=2) or, with `group`, for that consumer group
+    StoreOffset { stream: Ref, topic: Ref, who: u8, group: Option<Ref> },
     CreateUser { via: Via, name: u8, pwd: u8, active: bool, perms: Option<PermSpec> },
     UpdateUser { via: Via, user: Ref, name: Option<u8>, active: Option<bool> },
     UpdatePerms { via: Via, user: Ref, perms: Option<PermSpec> },
@@ -144,6 +146,8 @@ pub fn op_strategy(p: &Params) -> BoxedStrategy<COp> {
             (3, (via(p), rf(), rf(), rf()).prop_map(|(via, stream, topic, group)| COp::DeleteGroup { via, stream, topic, group }).boxed()),
             (2, (0u8..2).prop_map(|client| COp::Disconnect { client }).boxed()),
             (2, (via(p), rf(), rf(), 1u8..3).prop_map(|(via, stream, topic, n)| COp::DeletePartitions { via, stream, topic, n }).boxed()),
+            (10, (rf(), rf(), 1u8..=2, prop_oneof![1 => Just(None), 3 => rf().prop_map(Some)]).prop_map(|(stream, topic, who, group)| COp::StoreOffset { stream, topic, who, group }).boxed()),
+            (1, (via(p), rf(), rf()).prop_map(|(via, stream, topic)| COp::PurgeTopic { via, stream, topic }).boxed()),
             (1, Just(COp::Restart).boxed()),
         ];
         return proptest::strategy::Union::new_weighted(v).boxed();
@@ -175,6 +179,7 @@ pub fn op_strategy(p: &Params) -> BoxedStrategy<COp> {
         (3, (0u8..3, rf(), rf(), rf()).prop_map(|(client, stream, topic, group)| COp::Leave { client, stream, topic, group }).boxed()),
         (2, (0u8..3).prop_map(|client| COp::Disconnect { client }).boxed()),
         (6, (rf(), rf(), 1u8..6).prop_map(|(stream, topic, n)| COp::Send { stream, topic, n }).boxed()),
+        (9, (rf(), rf(), 1u8..=2, prop_oneof![1 => Just(None), 2 => rf().prop_map(Some)]).prop_map(|(stream, topic, who, group)| COp::StoreOffset { stream, topic, who, group }).boxed()),
         (6, Just(COp::Restart).boxed()),
     ];
     if users {
